@@ -26,9 +26,9 @@ func (ex *Exec) execInstr(fr *Frame, st *State, ins ssa.Instruction) {
 				c = ex.newCell(x.Comment, el)
 				fr.cells[x] = c
 				if x.Comment != "" {
-					if _, dup := fr.named[x.Comment]; !dup {
-						fr.named[x.Comment] = c
-					}
+					// the most recently declared variable of a name shadows
+					// earlier ones (execution follows source order)
+					fr.named[x.Comment] = c
 				}
 			}
 			if _, isDS := el.(*types.Named); isDS && el.String() == "$ssa.deferStack" {
@@ -110,7 +110,7 @@ func (ex *Exec) execInstr(fr *Frame, st *State, ins ssa.Instruction) {
 		r := ex.freshObject(st, "map")
 		mt := x.Type().Underlying().(*types.Map)
 		ks := ex.tm.SortOf(mt.Key())
-		dk := MapDomKey(ks)
+		dk := MapDomKey(ks, mt)
 		dom := ex.heapGet(st, dk, SArray(SInt, SArray(ks, SBool)))
 		ex.heapSet(st, dk, ts.Store(dom, r, ts.ConstArray(SArray(ks, SBool), ts.False())))
 		card := ex.heapGet(st, MapCardKey, SArray(SInt, SInt))
@@ -169,8 +169,8 @@ func (ex *Exec) execInstr(fr *Frame, st *State, ins ssa.Instruction) {
 			ks := ex.tm.SortOf(it.Type.Key())
 			vs := ex.tm.SortOf(it.Type.Elem())
 			kt := ex.term(k, ks, "map key")
-			dom := ex.heapGet(st, MapDomKey(ks), SArray(SInt, SArray(ks, SBool)))
-			val := ex.heapGet(st, MapValKey(ks, vs), SArray(SInt, SArray(ks, vs)))
+			dom := ex.heapGet(st, MapDomKey(ks, it.Type), SArray(SInt, SArray(ks, SBool)))
+			val := ex.heapGet(st, MapValKey(ks, vs, it.Type), SArray(SInt, SArray(ks, vs)))
 			vt := ex.term(v, vs, "map value")
 			ex.assume(st.PC, ts.Implies(ok, ts.And(ts.Select(ts.Select(dom, it.M), kt), ts.Eq(vt, ts.Select(ts.Select(val, it.M), kt)))))
 			// an empty map yields nothing
@@ -801,8 +801,8 @@ func (ex *Exec) lookup(fr *Frame, st *State, x *ssa.Lookup) Value {
 	m := ex.term(ex.operand(fr, st, x.X), SInt, "map")
 	ks, vs := ex.mapSorts(mt)
 	k := ex.term(ex.operand(fr, st, x.Index), ks, "map key")
-	dom := ex.heapGet(st, MapDomKey(ks), SArray(SInt, SArray(ks, SBool)))
-	val := ex.heapGet(st, MapValKey(ks, vs), SArray(SInt, SArray(ks, vs)))
+	dom := ex.heapGet(st, MapDomKey(ks, mt), SArray(SInt, SArray(ks, SBool)))
+	val := ex.heapGet(st, MapValKey(ks, vs, mt), SArray(SInt, SArray(ks, vs)))
 	card := ex.heapGet(st, MapCardKey, SArray(SInt, SInt))
 	in := ts.And(ts.Neq(m, ts.Int(0)), ts.Select(ts.Select(dom, m), k))
 	v := ts.Ite(in, ts.Select(ts.Select(val, m), k), ex.tm.zeroSort(vs))
@@ -824,7 +824,7 @@ func (ex *Exec) mapUpdate(fr *Frame, st *State, x *ssa.MapUpdate) {
 	ks, vs := ex.mapSorts(mt)
 	k := ex.term(ex.operand(fr, st, x.Key), ks, "map key")
 	v := ex.term(ex.operand(fr, st, x.Value), vs, "map value")
-	dk, vk := MapDomKey(ks), MapValKey(ks, vs)
+	dk, vk := MapDomKey(ks, mt), MapValKey(ks, vs, mt)
 	// an assignment to an entry of a nil map panics: the path ends there
 	if ex.safety(fr, "nil") && fr.top {
 		ex.oblige("safety:nilmap", "", x.Pos(), nil, st, ts.Neq(m, ts.Int(0)))
@@ -843,7 +843,7 @@ func (ex *Exec) mapUpdate(fr *Frame, st *State, x *ssa.MapUpdate) {
 func (ex *Exec) mapDelete(st *State, mt *types.Map, m, k *Term) {
 	ts := ex.ts
 	ks, _ := ex.mapSorts(mt)
-	dk := MapDomKey(ks)
+	dk := MapDomKey(ks, mt)
 	dom := ex.heapGet(st, dk, SArray(SInt, SArray(ks, SBool)))
 	card := ex.heapGet(st, MapCardKey, SArray(SInt, SInt))
 	was := ts.And(ts.Neq(m, ts.Int(0)), ts.Select(ts.Select(dom, m), k))
